@@ -101,6 +101,11 @@ func injectFaults(lines []string, r *Rng) []fault {
 					b := []string{"GET " + f[1] + "/{pb}", "  200 any"}
 					d := insertAt(insertAt(lines, len(lines), a), len(lines)+2, b)
 					out = append(out, fault{"paths differing only in a parameter name", d, len(lines) + 3, len(lines) + 4})
+					// the same with the parameter as the first segment, and through a URL block
+					a = []string{"GET /{ra}/x", "  200 any"}
+					b = []string{"URL /{rb}/y", "  POST", "    200 any"}
+					d = insertAt(insertAt(lines, len(lines), a), len(lines)+2, b)
+					out = append(out, fault{"paths differing only in the name of a leading parameter", d, len(lines) + 3, len(lines) + 5})
 				}
 			} else {
 				d := insertAt(lines, end, blk)
